@@ -4,9 +4,10 @@
 
 use crate::core::*;
 use crate::gen::{plain, seed, P};
-use crate::hutil::{deliver, to_http_request};
+use crate::hutil::{deliver, with_http_request};
 use actix_files::NamedFile;
 use std::cell::RefCell;
+use std::mem::ManuallyDrop;
 use std::path::PathBuf;
 use std::sync::{Arc, OnceLock};
 
@@ -35,28 +36,30 @@ pub fn teardown() {
 }
 
 thread_local! {
-    static RT: RefCell<Option<tokio::runtime::Runtime>> = const { RefCell::new(None) };
+    static RT: RefCell<Option<ManuallyDrop<tokio::runtime::Runtime>>> = const { RefCell::new(None) };
 }
 
 fn with_rt<R>(f: impl FnOnce(&tokio::runtime::Runtime) -> R) -> R {
     // taken out while in use: a panic drops it and the next case builds a fresh one
-    let rt = RT.with(|c| c.borrow_mut().take()).unwrap_or_else(|| {
+    // (never dropped from the thread-local destructor: tokio's own thread-locals may be gone by then)
+    let rt = RT.with(|c| c.borrow_mut().take()).map(ManuallyDrop::into_inner).unwrap_or_else(|| {
         tokio::runtime::Builder::new_current_thread().enable_time().max_blocking_threads(1).build().unwrap_or_else(|e| mc_core::machinery(format!("runtime: {e}")))
     });
     let r = f(&rt);
-    RT.with(|c| *c.borrow_mut() = Some(rt));
+    RT.with(|c| *c.borrow_mut() = Some(ManuallyDrop::new(rt)));
     r
 }
 
-fn exec(len: usize, lines: &[(&str, &[u8])]) -> Out {
+fn exec(len: usize, sync_read: bool, lines: &[(&str, &[u8])]) -> Out {
     let Some(r) = deliver("GET", lines) else { return Out::Skip };
-    let req = to_http_request(&r);
     let Some(dir) = DIR.get() else { mc_core::machinery("files: setup did not run") };
     let nf = match NamedFile::open(dir.join(format!("f{len}.txt"))) {
         Ok(f) => f,
         Err(e) => mc_core::machinery(format!("cannot open test file: {e}")),
     };
-    let res = nf.into_response(&req);
+    // files below the threshold are read on the calling thread, others through the blocking pool
+    let nf = if sync_read { nf.read_mode_threshold(1 << 20) } else { nf };
+    let res = with_http_request(&r, |req| nf.into_response(req));
     let status = res.status().as_u16();
     let cr = res.headers().get("content-range").is_some();
     let declared = match actix_web::body::MessageBody::size(res.body()) {
@@ -80,13 +83,13 @@ pub fn group() -> Group {
         b" ", b"\t", b"x", b"\x80", b"+",
     ]);
     for len in LENS {
-        let e: ExecFn = Arc::new(move |i: &[u8], _m: Mode| exec(len, &[("range", i)]));
+        let e: ExecFn = Arc::new(move |i: &[u8], _m: Mode| exec(len, true, &[("range", i)]));
         targets.push(Target {
             name: format!("files:len{len}:range"),
             prefix: vec![],
             suffix: vec![],
             alphabet: range_alpha.clone(),
-            max_tokens: [4, 5],
+            max_tokens: if len == 10 { [4, 6] } else { [4, 5] },
             seeds: vec![
                 seed("v", &[P::B(b"bytes="), P::Dec(b"2"), P::B(b"-"), P::Dec(b"5"), P::B(b", -"), P::Dec(b"3"), P::B(b","), P::Dec(b"7"), P::B(b"-")]),
                 seed("suffix", &[P::B(b"bytes=-"), P::Dec(b"1")]),
@@ -96,6 +99,19 @@ pub fn group() -> Group {
             exec: e,
         });
     }
+    // the default read mode (blocking pool) on the seed mutations only
+    let e: ExecFn = Arc::new(move |i: &[u8], _m: Mode| exec(10, false, &[("range", i)]));
+    targets.push(Target {
+        name: "files:len10:range:async-read".into(),
+        prefix: vec![],
+        suffix: vec![],
+        alphabet: range_alpha.clone(),
+        max_tokens: [2, 3],
+        seeds: vec![seed("v", &[P::B(b"bytes="), P::Dec(b"2"), P::B(b"-"), P::Dec(b"5"), P::B(b", -"), P::Dec(b"3")])],
+        double: false,
+        delivery: Delivery::Whole,
+        exec: e,
+    });
     let date: &[&[u8]] = &[
         b"Sun", b",", b" ", b"06", b"Nov", b"1994", b"2094", b"08:49:37", b"GMT", b"9999", b"0", b"99:99:99", b"-", b":", b"\x80", b"Thu, 01 Jan 1970 00:00:00 GMT",
     ];
@@ -109,7 +125,7 @@ pub fn group() -> Group {
     ];
     for (name, alpha, seed_v) in conds {
         // together with a satisfiable Range, so that precondition and range logic interact
-        let e: ExecFn = Arc::new(move |i: &[u8], _m: Mode| exec(10, &[(name, i), ("range", b"bytes=2-5")]));
+        let e: ExecFn = Arc::new(move |i: &[u8], _m: Mode| exec(10, true, &[(name, i), ("range", b"bytes=2-5")]));
         targets.push(Target {
             name: format!("files:len10:{name}"),
             prefix: vec![],
